@@ -78,15 +78,17 @@ CHECKS['C03'] = dict(
 CHECKS['C02'] = dict(
     technique='Lean 4 proof (positional parameter binding of the rebuild copy, by induction over the SELECT list) + cell-level differential correspondence',
     text=('Lean model of the SQLite rebuild copy step (new_initial, field_values, field_initials built in the orders '
-          'the code builds them; positional %s binding). Proved for every column list, item list and row: row count '
-          'preserved; a surviving untouched column keeps its value whatever the parameters (C02_surviving); when the '
-          'parameters are passed in placeholder order every placeholder receives the initial declared for its own '
-          'column, so added columns hold their initial value and null->non-null changes replace exactly the NULLs '
-          '(evalRow_aligned, C02_aligned); today-order correctness whenever the two orders agree; kernel-checked '
-          'counterexample for the mis-binding that the pinned commit had (F3, repaired by a fix: commit; the variant '
-          'in force is probed with the Lean witness on every run). The model predicts every cell of the rebuilt '
-          'table from the real op list in one-table batches; multi-model oracle for values through field/model '
-          'renames, row counts and initial values.'),
+          'the code builds them; positional %s binding; SQL-text initials of callables embedded or coalesced). Proved '
+          'for every column list, item list, row and column (C02_copy_correct): the value the copy writes equals a '
+          'specification stated from the inputs alone - a surviving value is kept, a NULL is replaced by the initial '
+          'declared for its column, a new column holds its initial - under three facts about the source that are read '
+          'or probed on every run (parameters in placeholder order, embed-or-bind decided per initial value, embedded '
+          'text coalesced on existing columns or not declared for one); C02_current_partial is its instance for the '
+          'current source; the placeholder premise is proved (placeholders_declared), not assumed; row count preserved; '
+          'kernel-checked counterexamples for the old parameter order (F3, repaired), for an embedded initial on an '
+          'existing column (F57, known) and for a stale embed flag. The model predicts every cell of the rebuilt table '
+          'from the real op list in one-table batches (incl. callable initials); multi-model oracle for values through '
+          'field/model renames, row counts and initial values, with deterministic families.'),
     design='§5 C02',
     note=COMMON_NOTE + 'SQLite column-affinity coercion and RENAME COLUMN/TO semantics are observed, not proved; rows are read through a raw sqlite3 connection (no Django converters).')
 CHECKS['C18'] = dict(
@@ -129,7 +131,11 @@ CHECKS['C06'] = dict(
           'strict dispatch (F7, repaired by a fix: commit) and for tuples (F8). The dispatch variant is read from the '
           'source (AST) and probed on every run; stored text, reloaded value and re-serialised text are compared with '
           'the real code on generated values; signatures with constraints/indexes go through Version.save()/reload on '
-          'SQLite; v2 -> v1 -> v2 for the v1-expressible subset.'),
+          'SQLite; v2 -> v1 -> v2 for the v1-expressible subset, also as a legacy pickled row. The attribute dictionary '
+          'of a field: FieldSignature.deserialize is modelled (which keys come back, through aliases) and proved to '
+          'return every tracked attribute with the value it was stored with - None, False, 0 and \'\' included - '
+          'whenever the loader goes by key presence (C06_field_attrs_roundtrip), which the translator reads from the '
+          'source (C06_source_attr_load); correspondence field_attr_load on generated stored dictionaries.'),
     design='§5 C06',
     note=COMMON_NOTE + 'Model covers attribute values; the enclosing signature structure (apps/models/fields dictionaries) is exercised by the signature-level oracle, not modelled. json.dumps/loads are trusted.')
 
@@ -185,7 +191,10 @@ CHECKS['C15'] = dict(
     technique='Lean 4 proof (exactness + frame of DeleteModel/DeleteApplication on the signature) + before/after oracle on generated projects',
     text=('Proved for every signature: DeleteModel removes exactly the named model entry and DeleteApplication exactly '
           'the app\'s model entries (C15_deleteModel_exact, C15_deleteApplication_exact), every other model and every '
-          'other app is the same value afterwards (frame), without a database nothing changes; owned-table list incl. '
+          'other app is the same value afterwards (frame), without a database nothing changes; the purge\'s clean-up '
+          'of the stored signature removes at most the purged app\'s own entry and keeps every other entry, empty '
+          'ones included (C15_purge_frame, C15_purge_no_new_entries; the clean-up mode is read from the source, '
+          'C15_source_purge_cleanup); owned-table list incl. '
           'auto-created many-to-many tables, prefix table names are different tables. On the real code: generated '
           'projects of two installed apps plus a stale app (tables + signature entries, not installed) with cross-app '
           'relations, M2M and prefix table names; `evolve --execute` with and without --purge, DeleteModel and '
